@@ -55,7 +55,8 @@ MANIFEST_ENTRY = {
 }
 PROP_FILES = ["DashLive/Props/C11.lean"]
 LEAN_TARGETS = ["DashLive.Props.C11"]
-GENERATORS = []
+import gen_wrmheader  # noqa: E402
+GENERATORS = [gen_wrmheader.main]
 TRUSTED = [
     "hashlib.sha256, pycryptodome AES-ECB, uuid.UUID.bytes_le, lxml, base64 as the independent references of the oracle",
     "harness/mp4walk.py (independent box walker) for pssh boxes of init segments",
@@ -324,9 +325,18 @@ def gen_prheader_direct(rng) -> dict:
             k["alg"] = rng.choice(["AESCTR", "AESCBC"])
     version = rng.choice([None, None, 1.0, 2.0, 3.0, 4.0])
     la = None if rng.random() < .25 else gen_url(rng)
+    custom = None
+    if rng.random() < .2:
+        custom = []
+        for _ in range(rng.choice([1, 1, 2, 3])):
+            attrs = None if rng.random() < .4 else {
+                rng.choice(["id", "b", "a", "Zz", "type", "a1"]): rng.choice(["1", "x y", "v-2", ""]) for _ in range(rng.randrange(0, 4))}
+            custom.append({"tag": rng.choice(["IIS_DRM_VERSION", "Owner", "x", "Note2"]),
+                           "value": rng.choice(["8.0.1907.32", "a&b <c> \"d\" 'e'", "", " padded ", "é😀"]),
+                           "attributes": attrs})
     return {"kind": "prheader_direct", "keys": keys, "default": rng.randrange(n), "la_url": la,
             "version": version, "header_version": hv, "security_level": rng.choice([150, 150, 2000, 3000]),
-            "la_in_ctor": rng.random() < .3}
+            "la_in_ctor": rng.random() < .3, "custom": custom}
 
 
 def impl_prheader_direct(env, case) -> dict:
@@ -337,13 +347,17 @@ def impl_prheader_direct(env, case) -> dict:
     default_kid = case["keys"][case["default"]]["kid"].upper()
     la = case["la_url"]
     out = {}
+    custom = None
+    if case.get("custom") is not None:
+        from dashlive.drm.base import CustomAttribute
+        custom = [CustomAttribute(tag=c["tag"], value=c["value"], attributes=c["attributes"]) for c in case["custom"]]
     with env.app.app.test_request_context("/"):
         mspr = PlayReady(la_url=la if case["la_in_ctor"] else None, version=case["version"],
                          header_version=case["header_version"], security_level=case["security_level"])
         try:
-            wrm = mspr.generate_wrmheader(la, default_kid, keys, None)
-            pro = mspr.generate_pro(la, default_kid, keys, None)
-            pssh = mspr.generate_pssh(la, default_kid, keys).encode()
+            wrm = mspr.generate_wrmheader(la, default_kid, keys, custom)
+            pro = mspr.generate_pro(la, default_kid, keys, custom)
+            pssh = mspr.generate_pssh(la, default_kid, keys, custom).encode()
         except Exception as e:
             return {"refused": exc_token(e)}
         try:
@@ -409,6 +423,39 @@ def oracle_prheader_direct(env, case, impl=None) -> list[dict]:
     return [{"what": x, "case": case} for x in problems]
 
 
+def v10(x) -> str:
+    return "-" if x is None else str(int(round(float(x) * 10)))
+
+
+def hdrchoice_line(case) -> str:
+    aes = 1 if (not case["keys"] or case["keys"][-1]["alg"] == "AESCTR") else 0
+    return f"hdrchoice {v10(case['version'])} {v10(case['header_version'])} {aes} {len(case['keys'])}"
+
+
+def wrmheader_line(case, hv: int) -> str:
+    keys = ",".join(f"{k['kid']}:{k['key']}:{lib.text_cp(k['alg'])}:{1 if k['computed'] else 0}" for k in case["keys"]) or "-"
+    la = "none" if case["la_url"] is None else lib.text_cp(case["la_url"])
+    cus = "-"
+    if case.get("custom"):
+        parts = []
+        for c in case["custom"]:
+            attrs = ";".join(f"{lib.text_cp(k)}~{lib.text_cp(v)}" for k, v in (c["attributes"] or {}).items()) or "-"
+            parts.append(f"{lib.text_cp(c['tag'])}:{lib.text_cp(c['value'])}:{attrs}")
+        cus = ",".join(parts)
+    return f"wrmheader {hv} {case['security_level']} {keys} {case['keys'][case['default']]['kid']} {la} {cus}"
+
+
+def lxml_summary(payload: bytes) -> str:
+    """what the independent reader (lxml) sees, in the driver's `parsewrm` format"""
+    h = orc.read_wrmheader(payload)
+
+    def opt(t):
+        return "none" if t is None else lib.text_cp(t)
+    kids = ",".join(f"{lib.hx(k['value'])}:{lib.hx(k['checksum']) if k['checksum'] is not None else 'none'}:{opt(k['algid'])}"
+                    for k in h["kids"]) or "-"
+    return f"{opt(h['version'])}/{kids}/{opt(h['la_url'])}"
+
+
 def model_lines_for_pro(pro: bytes, wrm: bytes | None, kids: list[bytes] | None) -> list[str]:
     lines = [f"parsepro {lib.hx(pro)}"]
     if wrm is not None:
@@ -447,7 +494,7 @@ def ch_prheader(ctx, env) -> Channel:
         {"kind": "prheader_direct", "keys": [{"kid": c11_env.KID_A.hex(), "key": "d6d39cedee9024c88b64eb1bdd617a47",
                                               "computed": True, "alg": "AESCTR"}], "default": 0,
          "la_url": "http://lic.example/?a=1&b=2", "version": None, "header_version": hv, "security_level": 150,
-         "la_in_ctor": False} for hv in (4.0, 4.1, 4.2, 4.3)]
+         "la_in_ctor": False, "custom": None} for hv in (4.0, 4.1, 4.2, 4.3)]
     cases += [gen_prheader_direct(rng) for _ in range(ctx.scale(250, 4000))]
     impls = [impl_prheader_direct(env, c) for c in cases]
     lines, index = [], []
@@ -458,9 +505,28 @@ def ch_prheader(ctx, env) -> Channel:
         ls = model_lines_for_pro(im["pro"], im["wrm"], kids) + [f"utf16dec {lib.hx(im['wrm'])}"]
         ls.append(f"wrmbytes {lib.text_cp(im['wrm'].decode('utf-16-le', 'surrogatepass'))}")
         ls.append(f"decodepssh {lib.hx(im['pssh'])}")
+        try:
+            hv_seen = orc.read_wrmheader(im["wrm"])["version"]
+            hv_seen = int(hv_seen[0] + hv_seen[2])
+        except Exception:
+            hv_seen = 0
+        ls.append(wrmheader_line(c, hv_seen))
+        ls.append(f"parsewrm {lib.text_cp(im['wrm'].decode('utf-16-le', 'surrogatepass'))}")
         index.append((c, im, len(lines)))
         lines += ls
     out = drive(lines, ch)
+    hv_out = drive([hdrchoice_line(c) for c in cases], ch)
+    for c, im, ho in zip(cases, impls, hv_out):
+        if "refused" in im:
+            got = im["refused"]
+        else:
+            try:
+                ver = orc.read_wrmheader(im["wrm"])["version"]
+                got = ver[0] + ver[2]
+            except Exception:
+                got = "unreadable"
+        if ho != "driver-error" and ho != got:
+            ch.disagreements.append({"case": c, "what": "chooseHeaderVersion", "model": ho, "impl": got})
     for c, im in zip(cases, impls):
         ch.evaluations += 1
         if "refused" in im:
@@ -468,7 +534,27 @@ def ch_prheader(ctx, env) -> Channel:
             for f in oracle_prheader_direct(env, c, im):
                 ch.oracle_failures.append(f)
     for c, im, at in index:
-        m_parse, m_gen, m_pssh, m_utf, m_wrm, m_dec = out[at:at + 6]
+        m_parse, m_gen, m_pssh, m_utf, m_wrm, m_dec, m_text, m_read = out[at:at + 8]
+        # the model's rendering of the translated template = the real generate_wrmheader, byte for byte
+        ch.count(f"rendered text compared with the model (custom attributes: {len(c.get('custom') or [])})")
+        if m_text != "driver-error" and m_text != im["wrm"].hex():
+            def show(h):
+                try:
+                    return bytes.fromhex(h).decode("utf-16-le", "replace")
+                except ValueError:
+                    return h
+            a, b = show(m_text), show(im["wrm"].hex())
+            k = next((i for i, (x, y) in enumerate(zip(a, b)) if x != y), min(len(a), len(b)))
+            ch.disagreements.append({"case": c, "what": "wrmText (rendered WRMHEADER)", "at": k,
+                                     "model": a[max(0, k - 40):k + 60], "impl": b[max(0, k - 40):k + 60]})
+        # the model's reader vs lxml on the real text (custom attributes are outside the reader's subject)
+        if m_read != "driver-error" and not c.get("custom"):
+            try:
+                want_read = lxml_summary(im["wrm"])
+            except Exception as e:
+                want_read = f"unreadable: {e}"
+            if m_read != want_read:
+                ch.disagreements.append({"case": c, "what": "parseWrmHeader", "model": m_read[:300], "impl": want_read[:300]})
         if m_wrm != "driver-error" and m_wrm != im["wrm"].hex():
             ch.disagreements.append({"case": c, "what": "wrmBytes", "model": m_wrm[:120], "impl": im["wrm"].hex()[:120]})
         try:
@@ -518,10 +604,40 @@ def ch_prheader(ctx, env) -> Channel:
         for p in res["pros"]:
             pending.append((c, p))
     lines, spans = [], []
+    store = env.stored_keys()
+    import itertools as _it
     for c, p in pending:
         ls = model_lines_for_pro(p["pro"], None, p.get("pssh_kids_order"))
         spans.append((len(lines), len(ls)))
         lines += ls
+    # the model's rendering for the same request (key order of the code's dict: every order is tried)
+    tlines, tspans = [], []
+    for c, p in pending:
+        try:
+            payload = orc.parse_pro(p["pro"])[0][2]
+            hv = orc.read_wrmheader(payload)["version"]
+            hv = int(hv[0] + hv[2])
+        except Exception:
+            tspans.append((len(tlines), 0, b""))
+            continue
+        keys = [k for k in p["kids"] if k in store]
+        dks = [p["default_kid"]] if "default_kid" in p else sorted(p.get("default_kids") or [])
+        la = "none" if not c.get("la") else lib.text_cp(c["la"][1])
+        cand = []
+        for perm in _it.islice(_it.permutations(keys), 6):
+            ks = ",".join(f"{k.hex()}:{store[k][0].hex()}:{lib.text_cp('AESCTR')}:{1 if store[k][1] else 0}" for k in perm) or "-"
+            for dk in dks:
+                cand.append(f"wrmheader {hv} 150 {ks} {dk.hex()} {la} -")
+        tspans.append((len(tlines), len(cand), payload))
+        tlines += cand
+    tout = drive(tlines, ch)
+    for (c, p), (at, n, payload) in zip(pending, tspans):
+        if n and "driver-error" not in tout[at:at + n] and payload.hex() not in tout[at:at + n]:
+            ch.disagreements.append({"case": c, "what": f"wrmText ({p['where']})",
+                                     "model": bytes.fromhex(tout[at]).decode("utf-16-le", "replace")[-160:] if tout[at] not in ("err", "bad-op") else tout[at],
+                                     "impl": payload.decode("utf-16-le", "replace")[-160:]})
+        elif n:
+            ch.count("rendered text of an app-generated PRO compared with the model")
     out = drive(lines, ch)
     for (c, p), (at, n) in zip(pending, spans):
         ch.nontrivial.add(p["pro"])
